@@ -2,6 +2,7 @@ package ast
 
 import (
 	"fmt"
+	"strings"
 
 	"github.com/smarthome-go/homescript/v3/homescript/errors"
 	"github.com/smarthome-go/homescript/v3/homescript/parser/ast"
@@ -35,6 +36,15 @@ func (self AnalyzedSingletonTypeDefinition) Type() Type { return self.SingletonT
 //
 
 // Impl block
+func (self AnalyzedImplBlock) String() string {
+	methods := make([]string, 0)
+	for _, method := range self.Methods {
+		methods = append(methods, "    "+strings.ReplaceAll(method.String(), "\n", "\n    "))
+	}
+
+	return fmt.Sprintf("impl %s for %s {\n%s\n}", self.UsingTemplate, self.SingletonIdent.Ident(), strings.Join(methods, "\n\n"))
+}
+
 type AnalyzedImplBlock struct {
 	SingletonIdent ast.SpannedIdent
 	SingletonType  Type
